@@ -171,8 +171,20 @@ def pipeline_cases(ctx):
         tp = timesgen.TimePass(fmt, list(range(1, n + 1)), start)
         bld = tp.build(ctx, rng)
         bld.sat_id = sid if fam == "klm" else 3
-        # noisy counts in all channels
-        bld.samples = bld.nprng.integers(200, 900, size=bld.samples.shape, dtype=np.uint32)
+        # a smooth scene (so that most pixels are NOT selected) with planted noise in a few places
+        w = FMT[fmt]["width"]
+        smp = np.zeros((n, w, 5), dtype=np.int64)
+        for c, base in enumerate((300, 320, 500, 480, 470)):
+            smp[:, :, c] = base + (np.arange(w)[None, :] // 40) + bld.nprng.integers(0, 2, size=(n, w))
+        for _ in range(rng.randint(3, 10)):
+            i, j = rng.randrange(n), rng.randrange(w)
+            smp[i, j, 0] += rng.choice([150, 300])
+            smp[i, j, 3] += rng.choice([250, 400])
+            if rng.random() < 0.5:
+                smp[i, j, 4] -= rng.choice([40, 90])
+        bld.samples = smp.reshape(n, w * 5).astype(np.uint32)
+        if fam == "klm":
+            bld.bitfield[:] = np.array([rng.choice([0, 1, 1, 2]) for _ in range(n)], dtype=np.uint16)
         data = bld.tobytes()
         cls = filegen.reader_class(fmt)
         kw = dict(tle_dir=filegen.tle_dir(ctx), tle_name="TLE_%(satname)s.txt", adjust_clock_drift=False)
@@ -210,7 +222,9 @@ def pipeline_cases(ctx):
             ctx.violation("%s pass %s a listed interval: calibrated channels differ from %s (first at %s)" % (
                 fmt, where, "the criterion-masked ones" if want_gate else "the unmasked ones", diff[:1].tolist()), payload,
                 cls="pipeline:%s" % ("inside" if want_gate else "outside"))
-        ctx.case((fmt, start), nontrivial=True, branch="pipeline/%s/%s/%d-masked" % (fam, where, int(sel.sum() > 0)))
+        frac = float(sel.mean()) if sel.size else 0.0
+        ctx.case((fmt, start), nontrivial=True, branch="pipeline/%s/%s/%s-masked" % (
+            fam, where, "none" if frac == 0 else ("some" if frac < 0.5 else "most")))
 
 
 def run(ctx):
